@@ -566,7 +566,7 @@ def run(c: Check):
         c.build()
     c.props()
     gold = json.load(open(ROOT / "golden" / "c20.json"))
-    n_ws, n_real, n_gr = (170, 8, 1500) if c.quick else (4200, 60, 30000)
+    n_ws, n_real, n_gr = (170, 8, 1500) if c.quick else (3600, 48, 24000)
     cases, graphs = [], []
     if c.replay:
         rp = json.load(open(c.replay))["replay"]
